@@ -22,7 +22,7 @@ CONSTANTS MaxNodes, MaxVars, MaxBindings, MaxData, MaxOrigins, MaxSS,
           MaxOps,        \* bound on history length
           FreshData,     \* BOOLEAN: AddBinding always creates a new binding (data never reused)
           MaxQueries,    \* bound on Query steps in a history (0: no Query action)
-          ExportMode     \* "none" | "states" (every distinct graph) | "final" (graph at the end of a
+          ExportMode     \* "none" | "states" (every distinct graph) | "trans" (every transition) | "final" (graph at the end of a
                          \* behaviour) | "hist" (maximal histories)
 
 VARIABLES nn, edges, cond, bvar, bdata, origins, nv, hist
@@ -163,9 +163,13 @@ Init ==
   /\ nn = 0 /\ edges = {} /\ cond = <<>> /\ bvar = <<>> /\ bdata = <<>>
   /\ origins = {} /\ nv = 0 /\ hist = <<>>
 
+(* last step of an exported behaviour: a single successor, so that simulation prints one case *)
+End == UNCHANGED gvars /\ Op([op |-> "End"])
+
 Next ==
   /\ Len(hist) < MaxOps
-  /\ \/ \E c \in CondChoices : NewCFGNode(c)
+  /\ IF ExportMode \in {"final", "hist"} /\ Len(hist) = MaxOps - 1 THEN End ELSE
+     \/ \E c \in CondChoices : NewCFGNode(c)
      \/ \E a \in Nodes, c \in CondChoices : ConnectNew(a, c)
      \/ \E a, b \in Nodes : ConnectTo(a, b)
      \/ NewVariable
@@ -208,6 +212,11 @@ ExportInv ==
     [] ExportMode = "final" -> (Len(hist) = MaxOps => PrintT(<<"CASE", ToJson(Graph)>>))
     [] ExportMode = "hist" -> (Len(hist) = MaxOps => PrintT(<<"CASE", ToJson([h |-> hist])>>))
     [] OTHER -> TRUE
+
+(* ACTION_CONSTRAINT used with VIEW GraphView: prints every transition (graph, operation) of   *)
+(* the state graph exactly once ("one executed implementation test per transition").          *)
+ExportTrans ==
+  ExportMode = "trans" => PrintT(<<"CASE", ToJson([g |-> Graph, op |-> hist'[Len(hist')]])>>)
 
 (* VIEW for "states" export: the history is an observation variable *)
 GraphView == gvars
